@@ -110,6 +110,7 @@ class ListWorld(object):
         self.v = cell['v']
         self.fields = cell['fields']              # [segment name, None, None, [texts]]
         self.finfo = {f[0]: f for f in self.fields}
+        TOL = self.lvl = cell.get('lvl', 2)       # a Z-message takes any segment under STRICT too: such a world is STRICT throughout
         if cell['kind'] == 'message':
             self.el = Message(cell['s'], version=self.v, validation_level=TOL)
             self.el.msh.msh_7 = '20200101'
@@ -130,13 +131,15 @@ class ListWorld(object):
         return d
 
     def spelled(self, name, how):
+        if hasattr(type(self.el), name.lower()):
+            return name         # the ADD segment: `message.add` is the method, only the upper-case spelling reaches the child
         return name.lower() if how in ('lower', 'long') else name
 
     def expected(self):
         return '\r'.join(t for n, t in self.order)
 
     def make(self, name, val):
-        s = self.Segment(name, version=self.v, validation_level=TOL)
+        s = self.Segment(name, version=self.v, validation_level=self.lvl)
         s.value = val
         return s
 
@@ -523,7 +526,14 @@ def cells(draw, versions):
         idxs = sorted(set(draw(st.lists(st.integers(1, 12), min_size=2, max_size=4))))
         return zsegment_cell(v, s, idxs)
     if k < 8:
-        kind = draw(st.sampled_from(['message', 'group']))
+        kind = draw(st.sampled_from(['message', 'group', 'message', 'group', 'zmessage']))
+        if kind == 'zmessage':
+            # a Z-message has no structure: every segment is accepted at either level and encoded where it was put
+            pool = [x for x in T.segments(v) if x != 'MSH' and not T.segment_defect(v, x)]
+            names = sorted(set(draw(st.lists(st.sampled_from(pool), min_size=1, max_size=3))))
+            cell = list_cell(v, draw(st.sampled_from(['ZDT_ZDT', 'ZZZ_Z01'])), 'message', names)
+            cell['lvl'] = draw(st.sampled_from([1, 1, 2]))
+            return cell
         if kind == 'message':
             cand = [m for m in T.messages(v) if '_' in m]
             m = draw(st.sampled_from(cand))
